@@ -196,7 +196,8 @@ def run_history(hist, acc):
                 nontrivial = True
                 prev_out.pop(op[1], None)
                 continue
-            _, fn, snap, nowrap, per = op
+            _, fn, snap, nowrap, per = op[:5]
+            mutate = op[5] if len(op) > 5 else None
             nf = NET_FIELDS if fn == "net" else DISK_FIELDS
             try:
                 got = psutil_call(w, fn, snap, nowrap, per)
@@ -227,6 +228,18 @@ def run_history(hist, acc):
                 gotd = {k: tuple(v) for k, v in got.items()}
             else:
                 gotd = None
+            if mutate and isinstance(got, dict) and got:
+                # the result belongs to the caller: whatever they do with it (drop the loopback entry, empty it, overwrite an
+                # entry) is no business of later calls
+                acc.count("results_mutated_by_the_caller")
+                nontrivial = True
+                if mutate == "pop":
+                    got.pop(sorted(got)[0])
+                elif mutate == "clear":
+                    got.clear()
+                else:
+                    k0 = sorted(got)[-1]
+                    got[k0] = type(got[k0])(*([2**70] * nf))
             feature = ""
             all_gone_before = False
             if nowrap:
@@ -239,6 +252,8 @@ def run_history(hist, acc):
                     feature = ":after_all_devices_vanished"
                 elif fn == "disk" and len({o[4] for o in hist[:idx + 1] if o[0] == "call" and o[1] == "disk" and o[3]}) > 1:
                     feature = ":alternating_perdisk"
+                elif any(o[0] == "call" and o[1] == fn and len(o) > 5 and o[5] for o in hist[:idx]):
+                    feature = ":after_caller_mutated_result"
             if per:
                 if gotd != want and gotd != want_b:
                     viols.append((f"value_mismatch{feature}", ctx + f" at op#{idx} got={gotd} want={want}"))
@@ -353,7 +368,10 @@ def gen_random(rng):
             snap[k] = vals
         nowrap = rng.random() < 0.85
         per = True if fn == "net" and rng.random() < 0.8 else rng.choice(perdisk_modes if fn == "disk" else [True, False])
-        hist.append(["call", fn, snap, nowrap, per])
+        call = ["call", fn, snap, nowrap, per]
+        if per and rng.random() < 0.25:
+            call.append(rng.choice(["pop", "clear", "poison"]))
+        hist.append(call)
     return hist
 
 
